@@ -45,7 +45,10 @@ void harness(void) {
     S.name[1] = "k"; S.type[1] = CARQUET_PHYSICAL_INT32; S.rep[1] = CARQUET_REPETITION_REQUIRED;
     for (int i = 0; i < R; i++) { int32_t v = i; memcpy(C[1].vals + 4 * i, &v, 4); }
     C[0].nrows = C[1].nrows = R;
-    /* ---- symbolic content */
+    /* ---- symbolic content (CONCRETE: a fixed pattern instead, used where the real CRC-32 must be computed and compared) */
+#ifdef CONCRETE
+    #define symx_make_symbolic(p, n, name) do { for (size_t i_ = 0; i_ < (size_t)(n); i_++) ((uint8_t*)(p))[i_] = (uint8_t)((name)[0] == 'n' ? (i_ % 3 == 1) : (name)[0] == 'l' ? i_ % 3 : (CT == 0 ? i_ & 1 : 0x91 * (i_ + 1))); } while (0)
+#endif
 #if OPT && !defined(NOLEVELS)
     uint8_t nulls[R ? R : 1]; symx_make_symbolic(nulls, R, "null");
     for (int i = 0; i < R; i++) { symx_assume(nulls[i] <= 1); C[0].def[i] = nulls[i] ? 0 : 1; }
@@ -133,7 +136,14 @@ void harness(void) {
 #ifdef REFCHECK
     /* C05: an independent reader written from the format specification accepts the file and recovers the table */
     static ref_pq_file rf; static ref_pq_column_data cd; static uint8_t arena[1024];
-    int rc = ref_pq_open(filebuf, len, &rf);
+    ref_pq_open_opts ropts; memset(&ropts, 0, sizeof ropts);
+    ropts.require_tiling = 1;          /* chunks tile [4, footer_start) without gap or overlap */
+    ropts.crc_hard = 1;                /* stored CRC == CRC-32 of the stored page bytes */
+    ropts.usize_hard = 1;              /* chunk total_uncompressed_size per parquet.thrift (headers included) */
+#ifdef EXCLUDE_F_LZ4_TAG
+    ropts.lz4_tag_as_raw = 1;          /* known finding: raw LZ4 blocks written under the deprecated (Hadoop-framed) LZ4 codec tag */
+#endif
+    int rc = ref_pq_open_ex(filebuf, len, &ropts, &rf);
     symx_observe_int((uint64_t)(int64_t)rc, "ref_pq_open");
     SYMX_ASSERT(rc == 0, "independent reference reader accepts the file (structure, sizes, counts, CRC)");
     SYMX_ASSERT(rf.meta.num_rows == R, "reference reader: file row count");
